@@ -259,9 +259,11 @@ def complex_add(document, cls, tags):
         if a.xml_choice_group is None:
             sequence.append(member)
         else:
+            # the choice goes where its first member is declared: documents
+            # are written in declaration order.
+            if not (a.xml_choice_group in choice_tags):
+                sequence.append(choice_tags[a.xml_choice_group])
             choice_tags[a.xml_choice_group].append(member)
-
-    sequence.extend(choice_tags.values())
 
     if len(sequence) > 0:
         sequence_parent.append(sequence)
